@@ -69,6 +69,17 @@ WriterSpec(sym, c) ==
   ELSE LET p == SubSeq(d, 1, len - 1) full == Complete(sym, p) IN
        IF Len(c) = len /\ d # full THEN [ok |-> FALSE, n |-> <<>>] ELSE [ok |-> TRUE, n |-> full]
 
+\* what the written UPC/EAN symbol carries as check digit (diagnostic for a rejected event): the check digit read from
+\* the symbol's structure regardless of verification; -1 when the symbol is not even well-formed
+CarriedCheck(sym, r) ==
+  IF sym = "UPCE" /\ Len(r) = 33 THEN
+     LET par == [i \in 1..6 |-> LeftChar(Quad(r, 4 * i))[2]]
+         k0 == IndexIn(PE, par) - 1  k1 == IndexIn(PE, [i \in 1..6 |-> 1 - par[i]]) - 1
+     IN IF k0 >= 0 THEN k0 ELSE k1
+  ELSE IF sym = "EAN8" /\ Len(r) = 43 THEN LeftChar(Quad(r, 37))[1]
+  ELSE IF sym \in {"EAN13", "UPCA"} /\ Len(r) = 59 THEN LeftChar(Quad(r, 53))[1]
+  ELSE -1
+
 \* ---------------------------------------------------------------- numbers
 RECURSIVE ToNum(_, _)
 ToNum(d, i) == IF i = 0 THEN 0 ELSE d[i] + 10 * ToNum(d, i - 1)        \* value of d[1..i]
